@@ -803,3 +803,76 @@ func (s *System) quiesce() {
 	}
 	panic("quiescence watchdog expired")
 }
+
+// ---- helpers for concurrent drivers (C17): the peer's counter and reader are shared between goroutines ----
+
+func (s *System) injectConc(p *Peer, cls model.CmdClassifierType, src, dst *model.FeatureAddressType, ack bool, ref *uint64, cmd model.CmdType) {
+	s.connMu.RLock()
+	reader := p.reader
+	s.connMu.RUnlock()
+	s.ctrMu.Lock()
+	p.ctr++
+	ctr := model.MsgCounterType(p.ctr)
+	s.ctrMu.Unlock()
+	h := model.HeaderType{SpecificationVersion: &spine.SpecificationVersion, AddressSource: src, AddressDestination: dst, MsgCounter: &ctr, CmdClassifier: &cls}
+	if ack {
+		h.AckRequest = &ack
+	}
+	if ref != nil {
+		r := model.MsgCounterType(*ref)
+		h.MsgCounterReference = &r
+	}
+	b, err := json.Marshal(model.Datagram{Datagram: model.DatagramType{Header: h, Payload: model.PayloadType{Cmd: []model.CmdType{cmd}}}})
+	if err != nil {
+		panic(err)
+	}
+	if reader != nil {
+		reader.HandleShipPayloadMessage(b)
+	}
+}
+
+// execConc: the inbound actions of exec, built without touching shared harness state
+func (s *System) execConc(a Action, p *Peer) {
+	kind := a.str("a")
+	ack := a.boolean("ack")
+	nm := s.remoteAddr(p, "nm")
+	switch kind {
+	case "discover":
+		d := s.discoveryData(p, append([]string{"0"}, a.strs("ents")...), nil, true, true)
+		s.injectConc(p, model.CmdClassifierTypeReply, nm, s.nmLocal(), ack, ptr(uint64(424242)), model.CmdType{NodeManagementDetailedDiscoveryData: d})
+	case "entrem", "entadd":
+		st := model.NetworkManagementStateChangeTypeRemoved
+		if kind == "entadd" {
+			st = model.NetworkManagementStateChangeTypeAdded
+		}
+		d := s.discoveryData(p, []string{a.str("e")}, &st, kind == "entadd", true)
+		s.injectConc(p, model.CmdClassifierTypeNotify, nm, s.nmLocal(), ack, nil, model.CmdType{Function: ptr(model.FunctionTypeNodeManagementDetailedDiscoveryData),
+			Filter: []model.FilterType{*model.NewFilterTypePartial()}, NodeManagementDetailedDiscoveryData: d})
+	case "sub", "bind", "unsub", "unbind":
+		ca, sa := s.remoteAddr(p, a.str("c")), s.localAddr(a.str("s"))
+		ft := model.FeatureTypeType(a.str("ft"))
+		var cmd model.CmdType
+		switch kind {
+		case "sub":
+			cmd.NodeManagementSubscriptionRequestCall = spine.NewNodeManagementSubscriptionRequestCallType(ca, sa, ft)
+		case "bind":
+			cmd.NodeManagementBindingRequestCall = spine.NewNodeManagementBindingRequestCallType(ca, sa, ft)
+		case "unsub":
+			cmd.NodeManagementSubscriptionDeleteCall = spine.NewNodeManagementSubscriptionDeleteCallType(ca, sa)
+		case "unbind":
+			cmd.NodeManagementBindingDeleteCall = spine.NewNodeManagementBindingDeleteCallType(ca, sa)
+		}
+		s.injectConc(p, model.CmdClassifierTypeCall, nm, s.nmLocal(), ack, nil, cmd)
+	case "listbinds":
+		s.injectConc(p, model.CmdClassifierTypeCall, nm, s.nmLocal(), ack, nil, model.CmdType{NodeManagementBindingData: &model.NodeManagementBindingDataType{}})
+	case "write":
+		cmd := model.CmdType{}
+		cmd.SetDataForFunction(fnMap[a.str("fn")], mkData(a.str("fn"), a.num("v")))
+		s.injectConc(p, model.CmdClassifierTypeWrite, s.remoteAddr(p, a.str("c")), s.localAddr(a.str("s")), ack, nil, cmd)
+	case "recv":
+		cmd := s.payloadCmd(a.str("pl"), a.num("v"), a.str("cls"))
+		s.injectConc(p, model.CmdClassifierType(a.str("cls")), s.remoteAddr(p, a.str("c")), s.localAddr(a.str("s")), ack, ptr(uint64(424242)), cmd)
+	default:
+		panic("execConc " + kind)
+	}
+}
